@@ -70,7 +70,7 @@ CHECKS['C07'] = dict(
     rule='(a) operand decoding: PUSH_BYTE/BYTEU x all 256, PUSH_SHORT/SHORTU x all 65536, PUSH_LONG x (2^17 hi-half x {0,FFFF} + boundary^2); '
          '(b) ALL straight-line programs of <=4 (quick) / <=5 (thorough) atoms over 37 atoms (12 boundary operand pushes, 22 arithmetic/comparison/logical/conditional/truncation/bit opcodes, 2 BITSET parameterisations, NOP) x 3 terminators, '
          'filtered by the REAL loader (Machine::Code as a constraint), executed on the real Machine in both interpreter builds and compared with a reference evaluator written from doc/OpCodes.adoc; '
-         '(c) every shipped font x corpus line/word x dir shaped by both builds, per-case dump hashes compared. distinct = distinct (value,status) results / distinct segment dumps',
+         '(deep) D pushes followed by D-1 ADD / SUB / OR for every D = 1..1100 (around the 1024-entry machine stack; a run-time stack_overflow status is the only accepted deviation, from depth 1024 on); (c) every shipped font x corpus line/word x dir shaped by both builds, per-case dump hashes compared. distinct = distinct (value,status) results / distinct segment dumps',
     state_meaning='one bytecode program (or corpus shaping case); transitions = program executions compared with the reference evaluator / with the other interpreter build',
     level_text='Exhaustive enumeration of all short straight-line programs over the arithmetic/logic opcode subset, each run on the real VM (both interpreters) against an independent 32-bit reference evaluator; differential shaping of the corpora between the two interpreter builds.',
     level_note='Trusted: reference evaluator (doc/OpCodes.adoc semantics, numbering frozen in /verif: 0x3E OR, 0x3F AND). Program length <= 5 atoms; operand values from a 12-value boundary set. Slot/segment-touching opcodes are covered by C02/C06.',
@@ -94,7 +94,7 @@ CHECKS['C18'] = dict(
 )
 
 from checks_py import stream_families, cached_binary
-HOOK_COMMITS.append('7573bac2'); HOOK_COMMITS.append('be5b62f7')
+HOOK_COMMITS.append('7573bac2'); HOOK_COMMITS.append('be5b62f7'); HOOK_COMMITS.append('5d23bb9a')
 
 _PROG_RULE = ('fonts enumerated by gen/progenum.py and filtered by the REAL loader: (action) every action program of <=3 atoms (quick) / <=4 atoms (thorough) over a 26-atom alphabet, plus (deep, short texts) every program of 4 and 5 atoms over the 11 structural atoms (NEXT, glyph change, copy, insert, delete, assoc, attach) in the main substitution context and every 5-atom program in a 3-slot rule with pre-context and in a positioning pass - thorough: the 5-atom programs in five more contexts (rule length 1..3, pre-context, positioning) and every 6-atom program containing two of {insert/delete, copy, attach} in two contexts (3.9 M programs) -, plus programs whose run-time stack use exceeds the linear depth analysis of the loader (SET_FEAT x 2..20) '
               '{NEXT, PUT_GLYPH x|y, PUT_SUBS -1|0|+1, PUT_COPY -1|0|+1, INSERT, DELETE, ASSOC, attach.to -2..2, ATTR_SET adv/shift/att/insert, IATTR_SET user, SET_FEAT, slot/glyph-attr readers} x 6 terminators '
@@ -226,7 +226,7 @@ CHECKS['C01'] = dict(
 CHECKS['C09'] = dict(
     level='model_checking',
     steps=[dict(mode='trk', bin='c09_threads'), dict(mode='tsan', bin='c09_threads')],
-    rule='harness: N in {2,3} threads, each gr_face_featureval_for_lang + gr_make_seg on its own text (texts with overlapping glyph sets) + full dump + feature label + value label + find_fref + face info + is_char_supported + a font of its own on the shared face with a second segment that is justified + destroy, on ONE cold shared face (gr_face_preloadAll) and ONE shared gr_make_font font; '
+    rule='harness: N in {2,3} threads, each gr_face_featureval_for_lang + gr_make_seg on its own text (texts with overlapping glyph sets) + full dump + feature label + value label + find_fref + face info + is_char_supported + a font of its own on the shared face with a second segment that is justified + destroy (each thread asks for a different language of the font, none of them the first), on ONE cold shared face (gr_face_preloadAll) and ONE shared gr_make_font font; '
          'fonts S-full, small.ttf, Padauk, S-full with one unreadable glyph (preloadAll must refuse it, the configuration is then vacuous) (thorough + Scheherazade, Awami_test, charis) x dir {0,1}. The library is compiled with -fsanitize=thread instrumentation and linked against our own __tsan_* runtime (src/sched/trk_runtime.cpp): every instrumented access is classified private (own stack / own allocation arena) or shared; '
          'two accesses are dependent iff same 8-byte granule, different threads, at least one write. Run 0 records the access sets; if the dependence relation is empty all interleavings are Mazurkiewicz-equivalent to the executed one (1 schedule class, reported with the event counts); otherwise (and always for the POSITIVE CONTROL configurations: lazily loading face, advance-callback font, and - the one that MUST show a conflict, independent of library internals - every thread letting the library write a tag into one caller-supplied buffer) '
          'every schedule with <= 2 preemptions at the dependent accesses is executed under a serialising scheduler from an identical cold state and each thread\'s result is compared with the single-threaded reference. Oracles: empty dependence relation (= no data race, the library has no synchronisation), no table callback during the parallel phase, per-thread result == sequential result. '
@@ -244,7 +244,7 @@ CHECKS['C17'] = dict(
     rule='(zones) EVERY sequence of <=3 (thorough <=4) operations over {exclude(a,b), exclude_with_margins(a,b,axis 0|2), weighted<XY> x 3 weight tuples, weighted<SD>} with endpoints a<b from a 7-point (thorough 8-point) lattice around bounds [0,8] plus degenerate/reversed intervals, after initialise<XY|SD>, on a real Zones object; '
          'after every operation: intervals sorted, non-empty, disjoint, inside the bounds, cell-wise equal (free/excluded and summed cost coefficients) to a unit-cell reference model; closest() from every half-lattice origin returns cost -1 iff every cell is excluded and otherwise a position inside a free cell. '
          '(end to end) every ShiftCollider::resolve performed while shaping (hooks in Pass::resolveCollisions): Awami_test, Awami_compressed_test, AwamiNastaliq-Regular x all awami corpus lines/words x dir {1,3}, and S-full / S-full RTL / S-full without sub-boxes x all strings of length 1..4 (thorough 1..5) containing a mark over 7 characters x dir {0,1}: '
-         'limit clause (accumulated offset + new shift inside a well-formed limit rectangle when it started inside), verdict clause (isCol false => the target bounding octabox at its new placement is separated, on one of the four octagon axes, from the octabox or every sub-octabox of each merged non-ignored neighbour; tolerance 0.05), Zones invariants of the four axis ranges. LTR glyphs with x-asymmetric limits are outside the property (DESIGN 7.1). '
+         'limit clause (accumulated offset + new shift inside a well-formed limit rectangle when it started inside), verdict clause (isCol false => the target bounding octabox at its new placement is separated, on one of the four octagon axes, from the octabox or every sub-octabox of each merged non-ignored neighbour; tolerance 0.05), Zones invariants of the four axis ranges; a second hook after the engine has stored the shift and updated the flags: the collision-remains flag equals the verdict just computed and, when clear, the stored shift is the shift the verdict was computed for. LTR glyphs with x-asymmetric limits are outside the property (DESIGN 7.1). '
          '(collider_lattice) a real ShiftCollider on a real segment: target glyph at the origin, ONE neighbour on a 21x21 (thorough 31x31) lattice of origins spanning both glyph extents, x (target, neighbour) from 5 (thorough 8) octabox-bearing glyphs of Awami_test and of S-full (with and without sub-boxes) x 5 limit rectangles (incl. zero-area) x margin {0,20} x 6 accumulated offsets x 2 current shifts x dir {LTR,RTL} x isAfter {0,1}: initSlot, mergeSlot, resolve, then the same three clauses. '
          '(collider_lattice_seq) the one-neighbour lattice with sequence-order constraints on the pair (collision.order in {RIGHTUP, LEFTDOWN, NOABOVE, NOBELOW, NOLEFT, NORIGHT} x {same sequence class, proximity class}, sameCluster, order weights) and with an exclusion glyph on the neighbour (2 offsets): same three clauses (these regions only remove or penalise space). '
          '(kern_lattice) a real KernCollider driven as Pass::resolveKern drives it (initSlot, mergeSlot, resolve, shift): same glyphs, ONE neighbour on the 21x21 (thorough 31x31) lattice x 5 limits x margin {0,20} x previous kern offset {0,30,-30,200} x space {0,50} x dir: kern finite and horizontal, previous offset + kern inside the x range of a well-formed limit; the end-to-end runs observe every KernCollider::resolve through a hook with the same oracle. '
